@@ -804,6 +804,7 @@ func parseResponse(form string, codec string, accept []string, rv *RespView, new
 				}
 				if !present {
 					o.problem("trailer frame lacks grpc-status")
+					e = &ErrSpec{Code: -1, Msg: "no status"}
 				}
 				trailerErr = e
 				for k, v := range appHeaders(th) {
